@@ -828,6 +828,8 @@ func ruleC01R10(r *Run) {
 			})
 			found = true
 			r.Check(fnName(fn)+" timeout only when configured", ok, posOf(p, call), fnName(fn), "context.WithTimeout must be reached only on the AckTimeout != 0 edge")
+			dl := p.Leaves(call.Call.Args[1], provOpts{})
+			r.Check(fnName(fn)+" timeout value", hasLeaf(dl, "field:/iscp.UpstreamConfig.AckTimeout") && len(leavesWithin(dl, []string{"field:/iscp.UpstreamConfig.AckTimeout", "field:/iscp.Upstream.Config", "param:*"})) == 0, posOf(p, call), fnName(fn), "the duration of the ack timeout derives from ["+joinLeaves(dl)+"]; it must be UpstreamConfig.AckTimeout, the value the test beside it compares with zero")
 		}
 	})
 	if !found {
